@@ -20,6 +20,19 @@
 //             M report signal masks of the backend and main threads |
 //             sig:<SIG>:<raise|kill|fault|abort> | tsig:<t>:<SIG> (thread t raises, main parks) | texit:<t> |
 //             bsig:<SIG> (raised on the backend thread, from a sink) | ret | exit
+//             ksig:<SIG>:<any|m|t<k>|b|none>  process-directed kill(getpid(), SIG) with several threads; the handled signals
+//                 are first blocked in every thread but: none blocked (any: the kernel chooses) | the main thread (m) |
+//                 extra thread k (t<k>) | the backend thread, which a sink makes unblock it (b) | nobody (none: stays pending)
+//   threads:  n0 = a thread that never logs and never preallocates (alive, parked)
+//   wait=<0|1> (optional, default 1): BackendOptions::wait_for_queues_to_empty_before_exit
+//   timing a signal against the backend / against a stop() in another thread (GateSink, first sink of the logger):
+//             Gw  hold the backend inside the next write_log until a signal handler has been entered (+30 ms)
+//             Gs  hold the backend inside the next write_log until a stop has been requested, and then inside the
+//                 final flush of BackendWorker::_exit (= after its last look at the queues) until a handler was entered
+//             Bw / Bf  wait until the backend is held in write_log / in that final flush
+//             tstop:<t>  thread t calls Backend::stop(); the script goes on once the stop has been requested
+//             tsigx:<t>:<SIG>  thread t logs 2 more statements now and raises SIG as soon as a stop has been requested
+//                 (by the X / ret / exit that follows)
 #include "quill/Backend.h"
 #include "quill/Frontend.h"
 #include "quill/LogMacros.h"
@@ -86,6 +99,7 @@ struct Case
   bool warning{false};
   bool logger{true};
   bool reraise{true};
+  bool wait{true};
   unsigned timeout{120};
   double limit{120};
   std::vector<ThreadSpec> threads;
@@ -109,6 +123,7 @@ static bool parse_case(std::string const& line, Case& c)
     else if (k == "lvl") c.warning = (v == "warning");
     else if (k == "logger") c.logger = (v == "1");
     else if (k == "reraise") c.reraise = (v == "1");
+    else if (k == "wait") c.wait = (v == "1");
     else if (k == "timeout") c.timeout = static_cast<unsigned>(atoi(v.c_str()));
     else if (k == "limit") c.limit = atof(v.c_str());
     else if (k == "threads")
@@ -134,6 +149,15 @@ static std::atomic<int> phase_done[MAXT];    // the thread has logged its progra
 static std::atomic<int> go_sig[MAXT];        // tsig / texit order for thread t (-1 = exit)
 static std::atomic<int> quiesce{0};           // `c` threads stop logging (before a path that runs static destructors)
 static std::atomic<int> quiet[MAXT];          // … and have acknowledged
+static std::atomic<int> arm_sig[MAXT];        // tsigx: log 2 more, then raise this signal once a stop has been requested
+static std::atomic<int> armed_ack[MAXT];      // … the 2 statements are logged
+static std::atomic<int> gate_hold_write{0};   // 1: until a handler was entered, 2: until a stop was requested
+static std::atomic<int> gate_hold_flush{0};   // 1: hold the first flush_sink after a stop request until a handler was entered
+static std::atomic<int> gate_state{0};        // 0 free, 1 held in write_log, 2 held in flush_sink
+static std::atomic<int> gate_timeouts{0};
+static std::atomic<int> mask_cmd[MAXT];       // ksig: block the handled signals on thread t
+static std::atomic<int> mask_ack[MAXT];
+static std::atomic<int> backend_unblocked{0}; // ksig:…:b — the backend thread has unblocked the signal
 static int report_fd = -1;
 static quill::Logger* logger = nullptr;
 static std::string log_path;
@@ -169,7 +193,7 @@ static void log_one(int t)
 class RaiseSink : public quill::Sink
 {
 public:
-  explicit RaiseSink(int sig) : _sig(sig) {}
+  explicit RaiseSink(int sig, bool do_raise = true) : _sig(sig), _raise(do_raise) {}
   void write_log(quill::MacroMetadata const*, uint64_t, std::string_view, std::string_view, std::string const&,
                  std::string_view, quill::LogLevel, std::string_view, std::string_view,
                  std::vector<std::pair<std::string, std::string>> const*, std::string_view log_message,
@@ -181,12 +205,66 @@ public:
       sigemptyset(&s);
       sigaddset(&s, _sig);
       pthread_sigmask(SIG_UNBLOCK, &s, nullptr);
-      raise(_sig);
+      if (_raise) raise(_sig);
+      else backend_unblocked.store(1);
     }
   }
   void flush_sink() override {}
 private:
   int _sig;
+  bool _raise;
+};
+
+/** records on which thread the handler ran: the producer thread of the handler's notice (reported through the pipe) */
+class WhoSink : public quill::Sink
+{
+public:
+  void write_log(quill::MacroMetadata const*, uint64_t, std::string_view thread_id, std::string_view, std::string const&,
+                 std::string_view, quill::LogLevel, std::string_view, std::string_view,
+                 std::vector<std::pair<std::string, std::string>> const*, std::string_view log_message, std::string_view) override
+  {
+    if (log_message.rfind("Received signal:", 0) == 0)
+      report("WHO %.*s\n", static_cast<int>(thread_id.size()), thread_id.data());
+  }
+  void flush_sink() override {}
+};
+
+/** holds the backend thread at a chosen point (see Gw / Gs) so that a signal or a stop() provably happens while the
+    backend is in the middle of its work; never holds for more than 10 s */
+class GateSink : public quill::Sink
+{
+public:
+  static bool handler_entered() { return quill::detail::SignalHandlerContext::instance().lock.load() != 0; }
+  static void hold(int state, bool until_stop)
+  {
+    gate_state.store(state);
+    auto t0 = Clock::now();
+    for (;;)
+    {
+      bool open = until_stop ? !quill::Backend::is_running() : handler_entered();
+      if (open) break;
+      if (Clock::now() - t0 > std::chrono::seconds{10}) { gate_timeouts.fetch_add(1); break; }
+      std::this_thread::sleep_for(std::chrono::microseconds{100});
+    }
+    // the handler needs a few microseconds from its entry to its decision / its log calls: give it 30 ms
+    if (!until_stop) std::this_thread::sleep_for(std::chrono::milliseconds{30});
+    gate_state.store(0);
+  }
+  void write_log(quill::MacroMetadata const*, uint64_t, std::string_view, std::string_view, std::string const&,
+                 std::string_view, quill::LogLevel, std::string_view, std::string_view,
+                 std::vector<std::pair<std::string, std::string>> const*, std::string_view, std::string_view) override
+  {
+    int h = gate_hold_write.exchange(0);
+    if (h) hold(1, h == 2);
+  }
+  void flush_sink() override
+  {
+    if (gate_hold_flush.load() && gate_hold_write.load() == 0 && !quill::Backend::is_running())
+    {
+      gate_hold_flush.store(0);
+      hold(2, false);
+    }
+  }
 };
 
 /** per-thread ids found in the file so far: sets m[t] = count if the thread's ids are exactly 0..count-1 in order */
@@ -232,8 +310,27 @@ static void do_fault(int sig)
   else raise(sig);
 }
 
+static void block_handled()
+{
+  sigset_t st;
+  sigemptyset(&st);
+  for (int sgn : {SIGSEGV, SIGABRT, SIGFPE, SIGILL, SIGINT, SIGTERM}) sigaddset(&st, sgn);
+  pthread_sigmask(SIG_BLOCK, &st, nullptr);
+}
+
 static void thread_main(int t, ThreadSpec spec)
 {
+  report("TID %d %ld\n", t, static_cast<long>(syscall(SYS_gettid)));
+  if (spec.mode == 'n')
+  {
+    // never logs, never preallocates: no thread context, no queue
+    phase_done[t].store(1);
+    for (;;)
+    {
+      if (mask_cmd[t].load() && !mask_ack[t].load()) { block_handled(); mask_ack[t].store(1); }
+      std::this_thread::sleep_for(std::chrono::microseconds{200});
+    }
+  }
   quill::Frontend::preallocate();
   if (spec.mode == 'c')
   {
@@ -244,7 +341,11 @@ static void thread_main(int t, ThreadSpec spec)
       std::this_thread::sleep_for(std::chrono::microseconds{100});
     }
     quiet[t].store(1);
-    for (;;) pause();
+    for (;;)
+    {
+      if (mask_cmd[t].load() && !mask_ack[t].load()) { block_handled(); mask_ack[t].store(1); }
+      std::this_thread::sleep_for(std::chrono::microseconds{200});
+    }
   }
   for (int i = 0; i < spec.n; ++i) log_one(t);
   phase_done[t].store(1);
@@ -254,7 +355,20 @@ static void thread_main(int t, ThreadSpec spec)
   {
     int g = go_sig[t].load();
     if (g > 0) { raise(g); report("CONT %d\n", 1000 + t); go_sig[t].store(0); }
+    else if (g == -2) { quill::Backend::stop(); report("TSTOPPED %d\n", t); go_sig[t].store(0); }
     else if (g < 0) { std::exit(0); }
+    if (mask_cmd[t].load() && !mask_ack[t].load()) { block_handled(); mask_ack[t].store(1); }
+    int a = arm_sig[t].load();
+    if (a > 0)
+    {
+      log_one(t);
+      log_one(t);
+      armed_ack[t].store(1);
+      while (quill::Backend::is_running()) std::this_thread::sleep_for(std::chrono::microseconds{50});
+      raise(a);
+      report("CONT %d\n", 1000 + t);
+      arm_sig[t].store(0);
+    }
     std::this_thread::sleep_for(std::chrono::microseconds{200});
   }
 }
@@ -274,9 +388,18 @@ static void on_unexpected_abort(int sig)
   raise(sig);
 }
 
+/** a `tsigx` signal fires inside the stop / exit that follows it; once the handler's flush has been served that stop
+    returns, and the thread that called it must not race the signalled thread to the end of the process */
+static void park_if_armed()
+{
+  for (int t = 0; t < MAXT; ++t)
+    if (arm_sig[t].load() > 0) for (;;) pause();
+}
+
 static int run(Case const& c, std::string const& scratch, int fd)
 {
   report_fd = fd;
+  atexit(park_if_armed);   // registered first = runs after the library's own exit handler
   prctl(PR_SET_PDEATHSIG, SIGKILL);
   setenv("LIBC_FATAL_STDERR_", "1", 1);   // glibc's own fatal messages (malloc checks) go to stderr, not /dev/tty
   signal(SIGABRT, on_unexpected_abort);
@@ -289,13 +412,24 @@ static int run(Case const& c, std::string const& scratch, int fd)
   }
   nthreads = 1 + static_cast<int>(c.threads.size());
   quill::BackendOptions bo;
+  bo.wait_for_queues_to_empty_before_exit = c.wait;
   quill::SignalHandlerOptions so;
   so.timeout_seconds = c.timeout;
   quill::detail::SignalHandlerContext::instance().should_reraise_signal.store(c.reraise);
 
   int bsig = 0;
+  bool gated = false, who = false, braise = true;
   for (auto const& op : c.script)
+  {
     if (op.rfind("bsig:", 0) == 0) bsig = sig_num(op.substr(5));
+    if (op.rfind("ksig:", 0) == 0)
+    {
+      who = true;
+      auto parts = split(op, ':');
+      if (parts.size() > 2 && parts[2] == "b") { bsig = sig_num(parts[1]); braise = false; }
+    }
+    if (op == "Gw" || op == "Gs") gated = true;
+  }
 
   if (c.logger)
   {
@@ -303,8 +437,10 @@ static int run(Case const& c, std::string const& scratch, int fd)
     cfg.set_open_mode('w');
     cfg.set_filename_append_option(quill::FilenameAppendOption::None);
     std::vector<std::shared_ptr<quill::Sink>> sinks;
+    if (gated) sinks.push_back(quill::Frontend::create_or_get_sink<GateSink>("gate_sink"));
     sinks.push_back(quill::Frontend::create_or_get_sink<quill::FileSink>(log_path, cfg));
-    if (bsig) sinks.push_back(quill::Frontend::create_or_get_sink<RaiseSink>("raise_sink", bsig));
+    if (bsig) sinks.push_back(quill::Frontend::create_or_get_sink<RaiseSink>("raise_sink", bsig, braise));
+    if (who) sinks.push_back(quill::Frontend::create_or_get_sink<WhoSink>("who_sink"));
     logger = quill::Frontend::create_or_get_logger(
       "root", std::move(sinks), quill::PatternFormatterOptions{"%(message)"},
       c.tsc ? quill::ClockSourceType::Tsc : quill::ClockSourceType::System);
@@ -349,6 +485,7 @@ static int run(Case const& c, std::string const& scratch, int fd)
   };
   auto graceful = [](int sg) { return sg == SIGINT || sg == SIGTERM; };
 
+  report("TID 0 %ld\n", static_cast<long>(syscall(SYS_gettid)));
   int k = 0;
   for (auto const& op : c.script)
   {
@@ -365,11 +502,50 @@ static int run(Case const& c, std::string const& scratch, int fd)
       bool was_running = quill::Backend::is_running();
       snap(k);
       quill::Backend::stop();
+      park_if_armed();
       std::vector<int> m;
       bool ok = scan_file(m);
       std::string s = "STOPSCAN " + std::to_string(k) + " m=";
       for (size_t t = 0; t < m.size(); ++t) s += (t ? "," : "") + std::to_string(m[t]);
       report("%s ok=%d running=%d\n", s.c_str(), ok ? 1 : 0, was_running ? 1 : 0);
+    }
+    else if (op == "Gw") { gate_hold_write.store(1); }
+    else if (op == "Gs") { gate_hold_flush.store(1); gate_hold_write.store(2); }
+    else if (op == "Bw" || op == "Bf")
+    {
+      int want = op == "Bw" ? 1 : 2;
+      auto t0 = Clock::now();
+      bool ok = true;
+      while (gate_state.load() != want)
+      {
+        if (Clock::now() - t0 > std::chrono::seconds{5}) { ok = false; break; }
+        std::this_thread::sleep_for(std::chrono::microseconds{100});
+      }
+      if (!ok) report("SYNCFAIL %d\n", k);
+    }
+    else if (op.rfind("tstop:", 0) == 0)
+    {
+      int t = atoi(op.c_str() + 6);
+      snap(k);
+      go_sig[t].store(-2);
+      auto t0 = Clock::now();
+      while (quill::Backend::is_running())
+      {
+        if (Clock::now() - t0 > std::chrono::seconds{5}) { report("SYNCFAIL %d\n", k); break; }
+        std::this_thread::sleep_for(std::chrono::microseconds{50});
+      }
+    }
+    else if (op.rfind("tsigx:", 0) == 0)
+    {
+      auto parts = split(op, ':');
+      int t = atoi(parts[1].c_str());
+      arm_sig[t].store(sig_num(parts[2]));
+      auto t0 = Clock::now();
+      while (!armed_ack[t].load())
+      {
+        if (Clock::now() - t0 > std::chrono::seconds{5}) { report("SYNCFAIL %d\n", k); break; }
+        std::this_thread::sleep_for(std::chrono::microseconds{100});
+      }
     }
     else if (op == "Q")
     {
@@ -395,6 +571,45 @@ static int run(Case const& c, std::string const& scratch, int fd)
       else if (how == "kill") { kill(getpid(), sg); std::this_thread::sleep_for(std::chrono::milliseconds{20}); }
       else do_fault(sg);
       report("CONT %d\n", k);   // the handler returned and the program goes on
+    }
+    else if (op.rfind("ksig:", 0) == 0)
+    {
+      auto parts = split(op, ':');
+      int sg = sig_num(parts[1]);
+      std::string spec = parts.size() > 2 ? parts[2] : "any";
+      if (graceful(sg)) quiesce_threads();
+      wait_threads();
+      if (spec == "b")
+      {
+        LOG_ERROR(logger, "TRIGGER");
+        auto t0 = Clock::now();
+        while (!backend_unblocked.load())
+        {
+          if (Clock::now() - t0 > std::chrono::seconds{5}) { report("SYNCFAIL %d\n", k); break; }
+          std::this_thread::sleep_for(std::chrono::microseconds{100});
+        }
+      }
+      int keep = (spec.size() > 1 && spec[0] == 't') ? atoi(spec.c_str() + 1) : -1;   // the only thread left unblocked
+      if (spec != "any")
+      {
+        for (size_t i = 0; i < c.threads.size(); ++i)
+        {
+          if (static_cast<int>(i) + 1 == keep || c.threads[i].mode == 'f') continue;
+          mask_cmd[i + 1].store(1);
+          auto t0 = Clock::now();
+          while (!mask_ack[i + 1].load())
+          {
+            if (Clock::now() - t0 > std::chrono::seconds{5}) { report("SYNCFAIL %d\n", k); break; }
+            std::this_thread::sleep_for(std::chrono::microseconds{100});
+          }
+        }
+        if (spec != "m") block_handled();
+      }
+      snap(k);
+      kill(getpid(), sg);
+      // delivered to this thread: the handler has run before kill() returns; to another one: give it time to end the process
+      std::this_thread::sleep_for(std::chrono::milliseconds{spec == "none" ? 200 : 3000});
+      report("CONT %d\n", k);
     }
     else if (op.rfind("tsig:", 0) == 0)
     {
@@ -575,8 +790,10 @@ int main(int argc, char** argv)
     std::vector<int> last_snap;
     std::map<int, std::vector<int>> snaps;
     std::string stopscans = "-", q, mask;
-    bool stops_ok = true, saw_end = false;
+    bool stops_ok = true, saw_end = false, sync_ok = true;
     int cont = 0;
+    std::map<long, int> tid_of;   // kernel thread id -> thread index
+    long who_tid = -1;
     for (auto const& ln : split(r.pipe_text, '\n'))
     {
       std::istringstream is(ln);
@@ -593,7 +810,8 @@ int main(int argc, char** argv)
         bool ok = (okf == "ok=1") && m.size() == sn.size();
         // a stop() of a running backend must have written everything completed before it was called; a redundant
         // stop() has no backend thread to write anything (order and uniqueness are still checked)
-        for (size_t t = 0; ok && runf == "running=1" && t < m.size(); ++t) ok = m[t] >= sn[t];
+        // (with wait_for_queues_to_empty_before_exit off stop() promises no completeness: order and uniqueness only)
+        for (size_t t = 0; ok && c.wait && runf == "running=1" && t < m.size(); ++t) ok = m[t] >= sn[t];
         if (!ok)
         {
           stops_ok = false;
@@ -604,6 +822,9 @@ int main(int argc, char** argv)
       else if (w == "Q") { std::string v; is >> v; q += (q.empty() ? "" : ";") + v; }
       else if (w == "M") { std::string v; is >> v; mask += (mask.empty() ? "" : ";") + v; }
       else if (w == "CONT") ++cont;
+      else if (w == "SYNCFAIL") sync_ok = false;
+      else if (w == "TID") { long tid = 0; is >> tid; tid_of[tid] = k; }
+      else if (w == "WHO") { who_tid = k; }
       else if (w == "END") saw_end = true;
     }
     // the file, read from outside
@@ -663,7 +884,8 @@ int main(int argc, char** argv)
     // what ended the script
     std::string term = c.script.back();
     int sig_thread = -1, sg = 0;
-    bool is_sig = false, raise_on_backend = false, is_dsig = false;
+    bool is_sig = false, raise_on_backend = false, is_dsig = false, is_ksig = false, ksig_none = false, receiver_never_logged = false;
+    int who = -1;
     int d_thread = 0, d_sig_t = 0, d_sig_m = 0;
     for (auto const& op : c.script)
     {
@@ -674,8 +896,31 @@ int main(int argc, char** argv)
         d_thread = atoi(parts[1].c_str()); d_sig_t = sig_num(parts[2]); d_sig_m = sig_num(parts[3]);
       }
       if (parts[0] == "sig") { is_sig = true; sig_thread = 0; sg = sig_num(parts[1]); }
-      else if (parts[0] == "tsig") { is_sig = true; sig_thread = atoi(parts[1].c_str()); sg = sig_num(parts[2]); }
+      else if (parts[0] == "tsig" || parts[0] == "tsigx") { is_sig = true; sig_thread = atoi(parts[1].c_str()); sg = sig_num(parts[2]); }
       else if (parts[0] == "bsig") { is_sig = true; raise_on_backend = true; sg = sig_num(parts[1]); }
+      else if (parts[0] == "ksig")
+      {
+        // process-directed: the receiving thread is the producer of the notice (WhoSink); without a notice it is the
+        // thread the masks leave (t<k>, m), the main thread when the kernel chooses (Linux tries it first), the backend (b)
+        std::string spec = parts.size() > 2 ? parts[2] : "any";
+        sg = sig_num(parts[1]);
+        is_ksig = true;
+        if (spec == "none") { ksig_none = true; continue; }
+        is_sig = true;
+        if (spec == "b") { raise_on_backend = true; continue; }
+        sig_thread = (spec.size() > 1 && spec[0] == 't') ? atoi(spec.c_str() + 1) : 0;
+        if (who_tid >= 0 && tid_of.count(who_tid)) who = tid_of[who_tid];
+        if (who >= 0 && spec != "any" && who != sig_thread)
+          oracle.push_back("handler-ran-on-a-thread-that-blocks-the-signal thread=" + std::to_string(who) + " expected=" + std::to_string(sig_thread));
+        if (who >= 0) sig_thread = who;
+        // the property speaks about a thread that has logged before: the main thread (it owns the logger and has
+        // preallocated) and f/a/c threads with at least one statement; an `n` thread is outside the premise
+        if (sig_thread > 0)
+        {
+          ThreadSpec const& ts = c.threads[static_cast<size_t>(sig_thread) - 1];
+          if (ts.mode == 'n' || ts.n == 0) receiver_never_logged = true;
+        }
+      }
     }
     // premise of the signal half of the property: the backend of the current cycle was started with the handler and is
     // running, the thread is a frontend thread with the logger, re-raise on, first signal of the process
@@ -687,7 +932,8 @@ int main(int argc, char** argv)
       else if (op == "S") { if (!backend_up) { handler_cycle = false; backend_up = true; } }
       else if (op == "I") handler_installed = true;
       else if (op == "X") { backend_up = false; handler_cycle = false; }
-      else if (op.rfind("sig:", 0) == 0 || op.rfind("tsig:", 0) == 0 || op.rfind("bsig:", 0) == 0 || op.rfind("dsig:", 0) == 0) { ++nsigops; break; }
+      else if (op.rfind("sig:", 0) == 0 || op.rfind("tsig:", 0) == 0 || op.rfind("bsig:", 0) == 0 || op.rfind("dsig:", 0) == 0 ||
+               op.rfind("tsigx:", 0) == 0 || op.rfind("ksig:", 0) == 0) { ++nsigops; break; }
     }
     if (is_dsig)
     {
@@ -699,8 +945,11 @@ int main(int argc, char** argv)
       if (n_info > 1 || n_crit > 1) oracle.push_back("later-entrant-logged info=" + std::to_string(n_info) + " critical=" + std::to_string(n_crit));
     }
     bool graceful = (sg == SIGINT || sg == SIGTERM);
+    // (a `tsigx` signal fires inside the stop / exit that follows it: the script ends with that operation)
+    bool armed_sig = false;
+    for (auto const& op : c.script) if (op.rfind("tsigx:", 0) == 0) armed_sig = true;
     bool premise = is_sig && !raise_on_backend && handler_cycle && backend_up && c.logger && c.reraise && nsigops == 1 &&
-      c.script.back().find("sig:") != std::string::npos;
+      (c.script.back().find("sig:") != std::string::npos || armed_sig) && sync_ok && !receiver_never_logged;
     std::string after_last = "-";
     if (r.status == "hang") oracle.push_back("process-did-not-end (killed after the limit of " + std::to_string(static_cast<int>(c.limit)) + " s)");
     if (premise)
@@ -724,13 +973,14 @@ int main(int argc, char** argv)
                                   " last-statement-line=" + std::to_string(last_line[st]) + " signum=" + std::to_string(nsig));
       }
     }
-    else if (is_sig && handler_installed && c.reraise && !raise_on_backend && !(handler_cycle && backend_up && !c.logger))
+    else if (is_sig && handler_installed && c.reraise && !raise_on_backend && !receiver_never_logged && !(handler_cycle && backend_up && !c.logger))
     {
       // a handled signal outside a handler cycle (backend stopped / never started / started without the handler):
       // the process must still end by the signal, or successfully for SIGINT/SIGTERM
       std::string want = graceful ? "exit:0" : "sig:" + sig_name(sg);
       if (r.status != want && r.status != "hang") oracle.push_back("wait-status " + r.status + " expected " + want);
     }
+    if (!sync_ok) oracle.push_back("harness-could-not-time-the-case (gate or stop request not reached within 5 s)");
     bool normal_end = (term == "ret" || term == "exit" || term.rfind("texit:", 0) == 0) && !is_sig;
     if (normal_end)
     {
@@ -739,7 +989,7 @@ int main(int argc, char** argv)
     }
     // R3: completeness at the end for every path that ends through exit(): everything completed before is in the file
     if ((normal_end || (is_sig && graceful && handler_installed && !raise_on_backend && (c.logger || !handler_cycle))) &&
-        (r.status == "exit:0"))
+        (r.status == "exit:0") && c.wait)
     {
       for (size_t t = 0; t < nt && t < last_snap.size(); ++t)
         if (found[t] < last_snap[t])
@@ -763,10 +1013,11 @@ int main(int argc, char** argv)
         prev = op;
       }
     }
-    printf("%s => status=%s snap=%s found=%s order=%s notices=%d/%d nsig=%s after_last=%s stopscans=%s q=%s mask=%s cont=%d\n",
+    printf("%s => status=%s snap=%s found=%s order=%s notices=%d/%d nsig=%s after_last=%s stopscans=%s q=%s mask=%s cont=%d sync=%s who=%s\n",
            c.line.c_str(), r.status.c_str(), join(last_snap).c_str(), join(found).c_str(), order_ok ? "ok" : "bad", n_info, n_crit,
            nsig ? sig_name(nsig).c_str() : "-", after_last.c_str(), stopscans.c_str(), q.empty() ? "-" : q.c_str(),
-           mask.empty() ? "-" : mask.c_str(), cont);
+           mask.empty() ? "-" : mask.c_str(), cont, sync_ok ? "ok" : "fail",
+           !is_ksig ? "-" : ksig_none ? "none" : raise_on_backend ? "b" : who >= 0 ? std::to_string(who).c_str() : "?");
     for (auto const& o : oracle)
     {
       printf("ORACLE case=%s %s\n", c.id.c_str(), o.c_str());
